@@ -42,6 +42,10 @@ var c18Tmpls = []c18Tmpl{
 	{"(funcall (lambda () BAD))", "sym:BAD"},
 	{"(apply car (list 5))", "call:apply"},
 	{"(map 'list (lambda (x) (car x)) (list 5))", "call:car"},
+	{"(handler-bind ((a-err (lambda (c &rest x) (ignore-errors (handler-bind ((b-err (lambda (c &rest y) (error 'c-err 1)))) (error 'b-err 2))) (rethrow)))) (error 'a-err 3))", "call3:error"},
+	{"(handler-bind ((a-err (lambda (c &rest x) (ignore-errors (handler-bind ((b-err 42)) (error 'b-err 2))) (rethrow)))) (error 'a-err 3))", "call2:error"},
+	{"(handler-bind ((a-err (lambda (c &rest x) (handler-bind ((b-err (lambda (c &rest y) 'ok))) (error 'b-err 2)) (rethrow)))) (error 'a-err 3))", "call2:error"},
+	{"(defun thrower () (error 'a-err 3)) (handler-bind ((a-err (lambda (c &rest x) (ignore-errors (car 5)) (rethrow)))) (thrower))", "call:error"},
 }
 
 type c18Walk struct {
@@ -63,6 +67,9 @@ func c18Find(nodes []*lisp.LVal, want string) *lisp.LVal {
 	skip := 0
 	if kind == "call2" {
 		kind, skip = "call", 1
+	}
+	if kind == "call3" {
+		kind, skip = "call", 2
 	}
 	for _, n := range nodes {
 		switch kind {
